@@ -183,3 +183,151 @@ def scenario(ctx, g, rng, steps, sig):
 def run(ctx, g, rng, n, steps, sig):
     for _ in range(n):
         scenario(ctx, g, rng, steps, sig)
+
+
+# ---------------- the same on the module LISTS of the two IRs ----------------
+def _build_modules(g, rng):
+    ir = g.IR()
+    for j in range(rng.choice([2, 3])):
+        m = g.Module(name="m%d" % j, ir=ir)
+        s = g.Section(name="s", module=m)
+        bi = g.ByteInterval(size=8, address=16 * j, section=s)
+        g.CodeBlock(size=1, offset=0, byte_interval=bi)
+        g.Symbol("y%d" % j, module=m)
+        if rng.random() < 0.5:
+            g.ProxyBlock(module=m)
+    buf = io.BytesIO()
+    ir.save_protobuf_file(buf)
+    return buf.getvalue()
+
+
+def _module_subtree(m):
+    out = [m] + list(m.proxies) + list(m.symbols)
+    for s in m.sections:
+        out.extend(_subtree(s))
+    return out
+
+
+def modules_scenario(ctx, g, rng, steps, sig):
+    """Elements are MODULES, the owning collections the two `ir.modules` lists of two loads of one file (plus a free module):
+    append / insert (add), remove / pop (discard), `modules[i] = m` and `modules[i:j] = [..]` -- for the model a discard of every
+    element that leaves followed by an add of every element that enters, which is what the list does -- with members exchanged for
+    their twins of the other IR.  Operations that would leave two equal UUIDs in one IR are skipped (outside the premise)."""
+    data = _build_modules(g, rng)
+    irs = {1: g.IR.load_protobuf_file(io.BytesIO(data)), 2: g.IR.load_protobuf_file(io.BytesIO(data))}
+    num, elems = {}, {}
+
+    def number(o):
+        if id(o) not in num:
+            num[id(o)] = len(num) + 1
+        return num[id(o)]
+    for k in (1, 2):
+        for m in irs[k].modules:
+            elems[number(m)] = m
+            for o in _module_subtree(m):
+                number(o)
+    free = g.Module(name="free")
+    g.Section(name="fs", module=free)
+    elems[number(free)] = free
+    for o in _module_subtree(free):
+        number(o)
+    subs = [[x, [[o.uuid.int, number(o)] for o in _module_subtree(m)]] for x, m in elems.items()]
+    uu = {x: {u for u, _ in tr} for x, tr in subs}
+    all_uuids = sorted({u for _, tr in subs for u, _ in tr})
+    shadow = {k: [num[id(m)] for m in irs[k].modules] for k in (1, 2)}
+    ops = [[0, k, x] for k in (1, 2) for x in shadow[k]]
+    obs = [None] * len(ops)
+    descs = [None] * len(ops)
+
+    def premise_ok(final):
+        seen = set()
+        for x in final:
+            if uu[x] & seen:
+                return False
+            seen |= uu[x]
+        return len(set(final)) == len(final)
+
+    def observe(raised):
+        out = [0 if raised else 1]
+        for k in (1, 2):
+            tab = []
+            for u in all_uuids:
+                got = irs[k].get_by_uuid(uuidlib.UUID(int=u))
+                if got is not None:
+                    tab.append([u, num.get(id(got), -1)])
+            out.append([sorted(num.get(id(m), -1) for m in irs[k].modules), sorted(tab)])
+        return out
+    for _ in range(steps):
+        k = rng.choice([1, 2])
+        other = 3 - k
+        cur = list(shadow[k])
+        ml = irs[k].modules
+        r = rng.random()
+        x = rng.choice(sorted(elems))
+        twins = [y for y in sorted(elems) if any(elems[y].uuid == elems[c].uuid and y != c for c in cur)]
+        if twins and rng.random() < 0.6:
+            x = rng.choice(twins)
+        if r < 0.25:
+            final = [y for y in cur if y != x] + [x]
+            desc, f = "ir%d.modules.append(n%d)" % (k, x), (lambda: ml.append(elems[x]))
+        elif r < 0.4 and cur:
+            y = rng.choice(cur)
+            final = [c for c in cur if c != y]
+            desc, f = "ir%d.modules.remove(n%d)" % (k, y), (lambda: ml.remove(elems[y]))
+            x = None
+        elif r < 0.75 and cur:
+            i = rng.randrange(len(cur))
+            # (the twin of the element at i, most of the time: the replaced element leaves, its twin enters)
+            tw = [y for y in sorted(elems) if y != cur[i] and elems[y].uuid == elems[cur[i]].uuid]
+            if tw and rng.random() < 0.6:
+                x = tw[0]
+            new = list(cur)
+            new[i] = x
+            final = [c for p, c in enumerate(new) if c != x or p == i]
+            desc, f = "ir%d.modules[%d] = n%d" % (k, i, x), (lambda: ml.__setitem__(i, elems[x]))
+        else:
+            i = rng.randrange(len(cur) + 1)
+            j = min(len(cur), i + rng.choice([0, 1, 2]))
+            xs = list(dict.fromkeys([x] + [rng.choice(sorted(elems)) for _ in range(rng.choice([0, 1]))]))
+            final = [c for c in cur[:i] if c not in xs] + xs + [c for c in cur[j:] if c not in xs]
+            desc, f = "ir%d.modules[%d:%d] = %s" % (k, i, j, xs), (lambda: ml.__setitem__(slice(i, j), [elems[c] for c in xs]))
+            x = None
+        if not premise_ok(final):
+            ctx.count("twin_model_ops_outside_premise")
+            continue
+        leavers = [c for c in cur if c not in final]
+        enterers = [c for c in final if c not in cur]
+        raised = None
+        try:
+            f()
+        except KeyError:
+            raised = "KeyError"
+        except Exception as e:  # noqa: BLE001
+            raised = exc_name(g, e)
+        shadow[k] = final
+        shadow[other] = [c for c in shadow[other] if c not in enterers]
+        step_ops = [[1, k, c] for c in leavers] + [[0, k, c] for c in enterers]
+        ctx.count("twin_model_list_ops:" + desc.split("(")[0].split("[")[0].split(".")[-1] + ("[]" if "[" in desc else ""))
+        if not step_ops:
+            continue
+        ops.extend(step_ops)
+        obs.extend([None] * (len(step_ops) - 1) + [observe(raised)])
+        descs.extend([desc] * len(step_ops))
+        if raised:
+            break
+    rep = model_batch([[52, subs, ops]])[0]
+    if isinstance(rep, tuple) or len(rep) != len(ops):
+        ctx.add("corr", sig + ":model-died", "the model driver failed on a twin-cache history over module lists", {"ops": ops[:40]})
+        return
+    for i, (o, mo) in enumerate(zip(obs, rep)):
+        if o is None:
+            continue
+        mo = [mo[0]] + [[sorted(ir[0]), sorted(ir[1])] for ir in mo[1:]]
+        if mo != o:
+            what = "whether the call raised" if mo[0] != o[0] else next(
+                ("IR %d %s" % (k, "members" if mo[k][0] != o[k][0] else "UUID table") for k in (1, 2) if mo[k] != o[k]), "?")
+            ctx.add("corr", sig, "twin-cache history over the module lists of two loads of one file, after %s: implementation and model differ in %s "
+                    "(implementation %s, model %s)" % (descs[i], what, str(o)[:160], str(mo)[:160]),
+                    {"calls": [d for d in dict.fromkeys(descs[: i + 1]) if d], "impl": o, "model": mo, "stream": "twin cache, module lists (Model/TwinCache.v)"})
+            return
+    ctx.case("twin-model-lists:" + repr(ops), True)
